@@ -284,7 +284,8 @@ Inductive op :=
 | OCreateClient (name : bytes) (cl : client)
 | OUpdateClient (name : bytes) (h : N) (snap : fmap bytes) (t : N)
 | OSetRules (rs : list bytes)
-| OTick (dt : N).
+| OTick (dt : N)
+| OSetApp (a : A).   (* the applications change their own state (user transactions of the token modules) *)
 
 Definition exec (c : chain) (o : op) : option (chain * list event) :=
   match o with
@@ -300,6 +301,7 @@ Definition exec (c : chain) (o : op) : option (chain * list event) :=
                     | None => None
                     end
   | OTick dt => Some (with_now c (c_now c + dt), [])
+  | OSetApp a => Some (with_app c a, [])
   end.
 
 (** a transaction: keep the new state iff the handler succeeded *)
@@ -323,3 +325,14 @@ Fixpoint run_log (c : chain) (ops : list op) : list event :=
   end.
 
 End Keeper.
+
+Arguments OSend {A} p.
+Arguments ORecv {A} p pf h.
+Arguments OAck {A} p ack pf h.
+Arguments OClean {A} cp.
+Arguments ORecvClean {A} cp pf h.
+Arguments OCreateClient {A} name cl.
+Arguments OUpdateClient {A} name h snap t.
+Arguments OSetRules {A} rs.
+Arguments OTick {A} dt.
+Arguments OSetApp {A} a.
